@@ -754,8 +754,16 @@ func (w *Walker) step(fr *frame, in ssa.Instruction) {
 		fr.env[x] = &Term{Op: "ptr", Cell: c, Typ: x.Type()}
 	case *ssa.Store:
 		w.store(w.val(fr, x.Addr), w.val(fr, x.Val), x, fn, depth)
+	case *ssa.SliceToArrayPointer:
+		// [N]T(s) / (*[N]T)(s): a view of the first N elements of s (the conversion panics when len(s) < N: the
+		// slice expression that produced s is what the bounds rules look at)
+		fr.env[x] = &Term{Op: "arrview", Args: []*Term{w.val(fr, x.X)}, Typ: x.Type()}
 	case *ssa.UnOp:
 		a := w.val(fr, x.X)
+		if x.Op == token.MUL && a.Op == "arrview" {
+			fr.env[x] = &Term{Op: "arrval", Args: a.Args, Typ: x.Type()}
+			return
+		}
 		switch x.Op {
 		case token.MUL:
 			fr.env[x] = w.load(a, x, fn, depth)
@@ -798,7 +806,28 @@ func (w *Walker) step(fr *frame, in ssa.Instruction) {
 			fr.env[x] = &Term{Op: "un", Name: x.Op.String(), Args: []*Term{a}, Typ: x.Type()}
 		}
 	case *ssa.BinOp:
-		fr.env[x] = w.binop(x.Op, w.val(fr, x.X), w.val(fr, x.Y), x.Type())
+		a, b := w.val(fr, x.X), w.val(fr, x.Y)
+		if x.Op == token.EQL || x.Op == token.NEQ {
+			if b.Op == "arrval" {
+				a, b = b, a
+			}
+			if a.Op == "arrval" && b.Op == "slicev" && constTable(b) != nil {
+				// array comparison with a constant image: the same fact as bytes.Equal(s, image)
+				cell := w.newCell("image", b.Typ, true)
+				cell.Val = b
+				st := types.NewSlice(elemType(b.Typ))
+				img := &Term{Op: "sref", Cell: cell, Typ: st, Args: []*Term{mkInt(0, types.Typ[types.Int]), mkInt(int64(len(b.Args)), types.Typ[types.Int])}}
+				t := &Term{Op: "call", Name: "bytes.Equal", Args: []*Term{a.Args[0], img}, Typ: types.Typ[types.Bool], Pos: x.Pos()}
+				w.event(Event{Kind: "call", Name: "bytes.Equal", Args: t.Args, Result: t, Pos: x.Pos(), Instr: x, Fn: fn, Depth: depth})
+				if x.Op == token.NEQ {
+					fr.env[x] = &Term{Op: "not", Args: []*Term{t}, Typ: x.Type()}
+				} else {
+					fr.env[x] = t
+				}
+				return
+			}
+		}
+		fr.env[x] = w.binop(x.Op, a, b, x.Type())
 	case *ssa.FieldAddr:
 		base := w.val(fr, x.X)
 		st := x.X.Type().Underlying().(*types.Pointer).Elem().Underlying().(*types.Struct)
